@@ -19,7 +19,7 @@ from cv.synth import run
 from cv.tlc import run_tlc, must_ok
 
 LEVEL = "model_checking"
-FACT = {("Ry/bohr3", "GPa"): consts.RY_BOHR3_TO_GPA, ("km/s", "km/s"): 1.0, ("bohr3", "ang3"): consts.BOHR3_TO_ANG3}
+FACT = {("Ry/bohr3", "GPa"): consts.ry_bohr3_to_gpa(), ("km/s", "km/s"): 1.0, ("bohr3", "ang3"): consts.bohr3_to_ang3()}
 
 
 @contextmanager
@@ -30,6 +30,35 @@ def cwd(p):
         yield
     finally:
         os.chdir(old)
+
+
+def quantum(tok: str) -> float:
+    """Half a unit of the last printed digit of a numeric token ('1.2500E+02' -> 0.5e-2 * 1e2, '312.5' -> 0.05, 'nan' -> 0)."""
+    t = tok.strip().lower().lstrip("+-")
+    if not t or t[0] not in "0123456789.":
+        return 0.0
+    mant, _, ex = t.partition("e")
+    e = int(ex) if ex else 0
+    dec = len(mant.partition(".")[2])
+    return 0.5 * 10.0 ** (e - dec)
+
+
+def values_and_quanta(path):
+    """the table's values with, for every entry, half a unit of its last printed digit (the 'printed precision')"""
+    lines = [l for l in Path(path).read_text().splitlines() if l.strip()]
+    q = [[quantum(x) for x in l.split()[1:]] for l in lines[1:]]
+    return numpy.array(q)
+
+
+def agrees_to_printed_precision(path, vv, want):
+    """|printed - in-memory| <= half a unit of the last printed digit (+ 4 ulp of the value), entry by entry; NaN matches NaN"""
+    q = values_and_quanta(path)
+    if q.shape != vv.shape or vv.shape != want.shape:
+        return False
+    both_nan = numpy.isnan(vv) & numpy.isnan(want)
+    with numpy.errstate(all="ignore"):
+        ok = numpy.abs(vv - want) <= q * (1.0 + 1e-9) + 4.0 * numpy.finfo(float).eps * numpy.abs(want)
+    return bool(numpy.all(ok | both_nan))
 
 
 def parse_table(path):
@@ -86,7 +115,7 @@ def main(ctx, replay=None):
             st = ds.settings
             exp_rows = st["T_MIN"] + st["DT"] * numpy.arange(st["NT"])
             exp_cols = {"tp": st["P_MIN"] + st["DELTA_P"] * numpy.arange(st["NTV"]),
-                        "tv": numpy.asarray(calc.v_array) * consts.BOHR3_TO_ANG3}
+                        "tv": numpy.asarray(calc.v_array) * FACT[("bohr3", "ang3")]}
             bases = {"tp": calc.pressure_base, "tv": calc.volume_base}
             per_rule = {}
             for r in rows:
@@ -128,7 +157,11 @@ def main(ctx, replay=None):
                         bad = f"row labels {rr.tolist()} expected {exp_rows.tolist()}"
                     elif len(cc) != len(exp_cols[r["base"]]) or not numpy.allclose(cc, exp_cols[r["base"]], rtol=1e-5 if r["base"] == "tv" else 1e-9, atol=1e-9):
                         bad = f"column labels {cc.tolist()[:4]}.. expected {exp_cols[r['base']].tolist()[:4]}.."
-                    elif vv.shape != want.shape or not numpy.allclose(vv, want, rtol=1e-7, atol=0, equal_nan=True):
+                    elif vv.shape == want.shape and numpy.any(numpy.isfinite(want) & (want != 0)):
+                        with numpy.errstate(all="ignore"):
+                            rel = numpy.abs(vv - want) / numpy.abs(want)
+                        ctx.cov["max_rel_dev_file"] = max(ctx.cov.get("max_rel_dev_file", 0.0), float(numpy.nanmax(numpy.where(numpy.isfinite(rel), rel, 0.0))))
+                    if bad is None and not agrees_to_printed_precision(out / fn, vv, want):
                         i = numpy.unravel_index(numpy.nanargmax(numpy.abs(vv - want) / (numpy.abs(want) + 1e-300)), want.shape) if vv.shape == want.shape else (0, 0)
                         bad = f"value[{i}] = {vv[i] if vv.shape == want.shape else vv.shape} expected {want[i] if vv.shape == want.shape else want.shape} ({r['uto']})"
                     if bad:
@@ -184,16 +217,16 @@ def overrides(ctx, calc, wd, ds):
         except Exception:
             ctx.violation(f"{fij.name} written with a unit override is not a table of numbers", {}, {"clause": "override_unit_ij"})
             return
-        if v3.shape != numpy.asarray(calc.volume_base.modulus_isothermal[k0])[:-4].shape or not numpy.allclose(v3, numpy.asarray(calc.volume_base.modulus_isothermal[k0])[:-4] * consts.RY_BOHR3_TO_GPA * 10.0, rtol=1e-7, equal_nan=True):
+        if not agrees_to_printed_precision(fij, v3, numpy.asarray(calc.volume_base.modulus_isothermal[k0])[:-4] * FACT[("Ry/bohr3", "GPa")] * 10.0):
             ctx.violation("unit override 'kbar' not honoured for the per-component keyword cij_t", {}, {"clause": "override_unit_ij"})
     if files != ["G_V_tp_gpa.txt", "my_bulk.dat"]:
         ctx.violation(f"file-name override not honoured: files {files}", {"files": files}, {"clause": "override_fname"})
         return
     _, _, v1 = parse_table(out / "my_bulk.dat")
-    if not numpy.allclose(v1, numpy.asarray(calc.pressure_base.bulk_modulus_voigt)[:-4] * consts.RY_BOHR3_TO_GPA, rtol=1e-7, equal_nan=True):
+    if not agrees_to_printed_precision(out / "my_bulk.dat", v1, numpy.asarray(calc.pressure_base.bulk_modulus_voigt)[:-4] * FACT[("Ry/bohr3", "GPa")]):
         ctx.violation("my_bulk.dat does not contain the Voigt bulk modulus in GPa", {}, {"clause": "override_fname_content"})
     _, _, v2 = parse_table(out / "G_V_tp_gpa.txt")
-    if not numpy.allclose(v2, numpy.asarray(calc.pressure_base.shear_modulus_voigt)[:-4] * consts.RY_BOHR3_TO_GPA * 10.0, rtol=1e-7, equal_nan=True):
+    if not agrees_to_printed_precision(out / "G_V_tp_gpa.txt", v2, numpy.asarray(calc.pressure_base.shear_modulus_voigt)[:-4] * FACT[("Ry/bohr3", "GPa")] * 10.0):
         ctx.violation("unit override 'kbar' not honoured for G_V", {}, {"clause": "override_unit"})
 
 
@@ -219,7 +252,7 @@ def repeated_entries(ctx, calc, wd):
         return
     _, _, a = parse_table(out / "bm_V_tp_gpa.txt")
     _, _, b = parse_table(out / "bulk_kbar.dat")
-    if not numpy.allclose(b, a * 10.0, rtol=1e-7, equal_nan=True):
+    if not agrees_to_printed_precision(out / "bulk_kbar.dat", b, numpy.asarray(calc.pressure_base.bulk_modulus_voigt)[:-4] * FACT[("Ry/bohr3", "GPa")] * 10.0):
         ctx.violation("the second entry of the same variable (unit kbar) does not carry the converted values", {}, {"clause": "repeat_content"})
     if (out / "v_tp_ang3.txt").read_bytes() != (out / "volumes_again.dat").read_bytes():
         ctx.violation("aliases V and v written by one writer differ in content", {}, {"clause": "repeat_content"})
